@@ -19,7 +19,8 @@ RULE = ("Part A (exhaustive): every (module, name) target of the mapping table i
         "kinds sequence); non-trivial = >=1 top-level from-import.")
 ASSUMPTIONS = ["comments and layout are not statements and are not compared",
                "the AST of the input (ast.parse) defines what the statements of the module are"]
-TIERS = {"quick": dict(shards=16, cases=8000), "thorough": dict(shards=16, cases=200000)}
+REACH_FILES = ['d42/migration/migrate_v1_to_v2.py']
+TIERS = {"quick": dict(shards=16, cases=30000), "thorough": dict(shards=16, cases=200000)}
 
 
 def bindings_expected(node, mapping):
